@@ -6,6 +6,7 @@ import (
 	"bufio"
 	"fmt"
 	"os"
+	"runtime"
 	"runtime/debug"
 	"sort"
 	"strings"
@@ -92,6 +93,7 @@ func rsRun(w *bufio.Writer, window int64, ops []rsOp) (term string, nontrivial b
 	var refHighest int64         // highest offset received
 	minReliable := int64(-1)     // smallest reliable size announced by a reset that took effect
 	cancelledLocally, sawTerminal, shutdown := false, false, false
+	covered := map[int64]bool{} // bytes accepted into the stream (frames handled without error, before any local cancel)
 	dataReads, eofs := 0, 0
 	bufferOf := func(d []byte) int {
 		if len(d) == 0 {
@@ -181,6 +183,11 @@ func rsRun(w *bufio.Writer, window int64, ops []rsOp) (term string, nontrivial b
 				if op.fin {
 					refFinal = end
 				}
+				if !cancelledLocally {
+					for x := op.off; x < end; x++ {
+						covered[x] = true
+					}
+				}
 			} else {
 				stop = true
 			}
@@ -240,12 +247,48 @@ func rsRun(w *bufio.Writer, window int64, ops []rsOp) (term string, nontrivial b
 			if cls == 9 {
 				monfail("read-error", "Read returned an unexpected error")
 			}
+			if cls == 4 && op.n > 0 && !cancelledLocally && !shutdown && minReliable >= 0 && delivered >= minReliable {
+				monfail("read-stall", fmt.Sprintf("Read blocks at offset %d although the stream was reset with reliable size %d", delivered, minReliable))
+			}
+			if cls == 4 && op.n > 0 && !cancelledLocally && !shutdown {
+				// would block: legitimate only if the next byte is missing and the end is not reached
+				if covered[delivered] {
+					monfail("read-stall", fmt.Sprintf("Read blocks at offset %d although that byte was received", delivered))
+				}
+				if refFinal >= 0 && delivered == refFinal {
+					monfail("read-stall", fmt.Sprintf("Read blocks at the final size %d instead of returning EOF or the reset error", delivered))
+				}
+			}
+			if cls == 4 && len(d) > 0 {
+				monfail("read-stall", fmt.Sprintf("Read waited for more data although it already had %d bytes to return", len(d)))
+			}
+			if cls == 0 && len(d) == 0 && op.n > 0 {
+				monfail("read-empty", "Read returned (0, nil) for a non-empty buffer")
+			}
 			out(u.App("RRead", u.Z(op.n)), cls, int64(len(d)), h, code, remote, collect())
 		case 3:
 			d, cls, code, remote := rs.Peek(int(op.n))
 			checkData("peek", d)
 			if rs.ReadPos() != delivered {
 				monfail("peek-consumes", "Peek moved the read position")
+			}
+			if cls == 4 && op.n > 0 && !cancelledLocally && !shutdown {
+				all := true
+				for x := delivered; x < delivered+op.n; x++ {
+					if !covered[x] {
+						all = false
+						break
+					}
+				}
+				if all {
+					monfail("peek-stall", fmt.Sprintf("Peek(%d) blocks at offset %d although all requested bytes were received", op.n, delivered))
+				}
+			}
+			if cls == 0 && int64(len(d)) != op.n {
+				monfail("peek-short", fmt.Sprintf("Peek(%d) returned %d bytes without an error", op.n, len(d)))
+			}
+			if cls == 1 && (refFinal < 0 || delivered+int64(len(d)) != refFinal) {
+				monfail("peek-eof", fmt.Sprintf("Peek returned EOF with data up to %d, final size %d", delivered+int64(len(d)), refFinal))
 			}
 			out(u.App("RPeek", u.Z(op.n)), cls, int64(len(d)), c03Hash(d), code, remote, collect())
 		case 4:
@@ -311,7 +354,7 @@ func rsGen(r *u.Rng) (int64, []rsOp) {
 			}
 			if op.off+op.n == total {
 				op.fin = r.Chance(2, 3)
-			} else if r.Chance(1, 14) {
+			} else if r.Chance(1, 9) {
 				op.fin = true // FIN that contradicts the lattice's final size
 			}
 			if r.Chance(1, 25) {
@@ -321,10 +364,14 @@ func rsGen(r *u.Rng) (int64, []rsOp) {
 				op = rsOp{kind: 0, off: total - 1, n: int64(r.Range(2, 5))} // beyond the end
 			}
 			ops = append(ops, op)
-		case k < 80:
+		case k < 76:
 			ops = append(ops, rsOp{kind: 2, n: r.Pick(0, 1, 5, 64, 127, 200, 1000, 5000)})
-		case k < 88:
-			ops = append(ops, rsOp{kind: 3, n: r.Pick(0, 1, 5, 64, 200, 1000, 5000)})
+		case k < 86:
+			pn := r.Pick(0, 1, 5, 64, 200, 1000, 5000)
+			if r.Chance(1, 2) { // a lattice span from the start: crosses frame boundaries
+				pn = bounds[r.Range(1, ncells)] - int64(r.Intn(2))
+			}
+			ops = append(ops, rsOp{kind: 3, n: pn})
 		case k < 94:
 			final := total
 			if r.Chance(1, 4) {
@@ -349,6 +396,7 @@ func rsGen(r *u.Rng) (int64, []rsOp) {
 
 func runRecvStream(w *bufio.Writer, seed uint64, n int, _ []string) {
 	debug.SetGCPercent(-1) // the pool must keep every frame that was put back until the harness drains it
+	runtime.GOMAXPROCS(1)  // ... and a sync.Pool's per-P private slot is only visible from that P
 	wire.VerifTrackStreamFramePool()
 	r := u.NewRng(seed)
 	dist := map[string]int{}
@@ -375,7 +423,7 @@ func runRecvStream(w *bufio.Writer, seed uint64, n int, _ []string) {
 	b := []int64{0, 64, 193}
 	alphabet := []rsOp{
 		{kind: 0, off: b[0], n: cells[0]}, {kind: 0, off: b[1], n: cells[1]}, {kind: 0, off: b[1], n: cells[1], fin: true},
-		{kind: 0, off: b[0], n: b[2], fin: true}, {kind: 0, off: 30, n: 100},
+		{kind: 0, off: b[0], n: b[2], fin: true}, {kind: 0, off: 30, n: 100}, {kind: 0, off: b[0], n: cells[0], fin: true},
 		{kind: 2, n: 50}, {kind: 2, n: 1000}, {kind: 3, n: 100},
 		{kind: 1, final: 193, rel: 0, code: 7}, {kind: 1, final: 193, rel: 64, code: 7}, {kind: 4, code: 13},
 	}
@@ -422,6 +470,8 @@ func (o csOp) String() string {
 		return fmt.Sprintf("crypto[%d,+%d)", o.off, o.n)
 	case 1:
 		return "get"
+	case 3:
+		return fmt.Sprintf("crypto-at-highest%+d(len %d)", o.off, o.n)
 	}
 	return "finish"
 }
@@ -463,22 +513,26 @@ func runCryptoStream(w *bufio.Writer, seed uint64, n int, _ []string) {
 					off = maxOff - ln + int64(cr.Intn(3)) - 1 // limit-1, limit, limit+1
 				}
 				ops = append(ops, csOp{kind: 0, off: off, n: ln})
-			case k < 85:
+			case k < 80:
 				ops = append(ops, csOp{kind: 1})
+			case k < 88: // a frame that ends at the highest offset received so far -1 / +0 / +1 (resolved when run)
+				ops = append(ops, csOp{kind: 3, off: int64(cr.Intn(3)) - 1, n: cr.Pick(1, 4, 64, 129)})
 			default:
 				ops = append(ops, csOp{kind: 2})
 			}
 		}
-		s := make([]string, len(ops))
-		for i, o := range ops {
-			s[i] = o.String()
+		opsString := func() string {
+			s := make([]string, len(ops))
+			for i, o := range ops {
+				s[i] = o.String()
+			}
+			return strings.Join(s, " ")
 		}
-		opsStr := strings.Join(s, " ")
-		monfail := func(key, desc string) { fmt.Fprintf(w, "MONFAIL\tcryptostream/%s\t%s\t%s\n", key, desc, opsStr) }
+		monfail := func(key, desc string) { fmt.Fprintf(w, "MONFAIL\tcryptostream/%s\t%s\t%s\n", key, desc, opsString()) }
 		func() {
 			defer func() {
 				if rec := recover(); rec != nil {
-					fmt.Fprintf(w, "MONFAIL\tcryptostream/panic\tpanic: %v\t%s\n", rec, opsStr)
+					fmt.Fprintf(w, "MONFAIL\tcryptostream/panic\tpanic: %v\t%s\n", rec, opsString())
 				}
 			}()
 			cs := quic.VerifNewCryptoStream()
@@ -486,8 +540,17 @@ func runCryptoStream(w *bufio.Writer, seed uint64, n int, _ []string) {
 			var delivered, highest int64
 			finished := false
 			gotData := false
-			for _, op := range ops {
+			for oi, op := range ops {
 				stop := false
+				if op.kind == 3 {
+					end := highest + op.off
+					if end-op.n < 0 || end <= 0 {
+						op = csOp{kind: 0, off: 0, n: 1}
+					} else {
+						op = csOp{kind: 0, off: end - op.n, n: op.n}
+					}
+					ops[oi] = op
+				}
 				switch op.kind {
 				case 0:
 					end := op.off + op.n
@@ -554,7 +617,7 @@ func runCryptoStream(w *bufio.Writer, seed uint64, n int, _ []string) {
 			}
 			fmt.Fprintf(w, "CASE %d %s\n", k, u.App("CSCase", u.List(items)))
 			if i < 2 {
-				fmt.Fprintf(w, "SAMPLE\t%s\n", opsStr)
+				fmt.Fprintf(w, "SAMPLE\t%s\n", opsString())
 			}
 		}()
 	}
